@@ -52,10 +52,9 @@ def judge(trace, mod, tmp, split=None):
 
 def check_files(trace, mod, tmp):
     ref = backends.reference(trace, P)
-    for f in ("witness.wtns", "circuit.r1cs"):
-        if os.path.exists(os.path.join(tmp, f)):
-            os.remove(os.path.join(tmp, f))
-    mod.prove()
+    msg = backends.prove_over_stale(mod, tmp, ("witness.wtns", "circuit.r1cs"))
+    if msg:
+        return msg
     try:
         w = iden3.read_wtns(open(os.path.join(tmp, "witness.wtns"), "rb").read())
         c = iden3.read_r1cs(open(os.path.join(tmp, "circuit.r1cs"), "rb").read())
